@@ -245,6 +245,32 @@ func (fc *factCtx) defineInt(t intTerm) {
 		if !isIntType(v.X.Type()) {
 			return
 		}
+		if intWidth(v.Type()) < 64 && v.Op != token.REM {
+			// narrow types wrap around: only the wrap-free pattern  k + (y % m)  (unsigned) is modelled
+			if v.Op == token.ADD {
+				var k int64
+				var rem *ssa.BinOp
+				if kk, ok := constInt(v.X); ok {
+					k = kk
+					rem, _ = v.Y.(*ssa.BinOp)
+				} else if kk, ok := constInt(v.Y); ok {
+					k = kk
+					rem, _ = v.X.(*ssa.BinOp)
+				}
+				if rem != nil && rem.Op == token.REM {
+					if m, ok := constInt(rem.Y); ok && m > 0 && k >= 0 {
+						if b, ok := v.Type().Underlying().(*types.Basic); ok && b.Info()&types.IsUnsigned != 0 {
+							max := int64(1)<<uint(intWidth(v.Type())) - 1
+							if k+m-1 <= max {
+								fc.le(leExpr(constLin(k), self))
+								fc.le(leExpr(self, constLin(k+m-1)))
+							}
+						}
+					}
+				}
+			}
+			break
+		}
 		switch v.Op {
 		case token.ADD:
 			fc.eq(sub(self, fc.iexpr(v.X).plus(fc.iexpr(v.Y), 1)))
